@@ -14,21 +14,23 @@ Record info := mkInfo {
 Definition dflt (o : option Qc) (d : Qc) : Qc := match o with Some v => v | None => d end.
 Definition zq (z : Z) : Qc := qc_of_Z z.
 Definition qmax (a b : Qc) : Qc := if qc_ltb a b then b else a.
+(* Python int(): truncation towards zero *)
+Definition ztrunc (q : Qc) : Z := if qc_ltb q qc0 then (- Qfloor (this (- q)))%Z else Qfloor (this q).
 
 Definition get_upm (i : info) : Qc := dflt (i_upm i) (zq static_unitsPerEm).
 (* otRound(upm * 0.8) etc. *)
 Definition get_ascender (i : info) : Qc :=
   dflt (i_ascender i) (zq (otRound (get_upm i * qq f_ascender_num f_ascender_den))).
 Definition get_descender (i : info) : Qc :=
-  dflt (i_descender i) (zq (- otRound (get_upm i * qq f_descender_num f_descender_den))).
+  dflt (i_descender i) (- zq (otRound (get_upm i * qq f_descender_num f_descender_den))).
 Definition get_capHeight (i : info) : Qc :=
   dflt (i_capHeight i) (zq (otRound (get_upm i * qq f_capheight_num f_capheight_den))).
 Definition get_xHeight (i : info) : Qc :=
   dflt (i_xHeight i) (zq (otRound (get_upm i * qq f_xheight_num f_xheight_den))).
-(* max(int(upm * 1.2) - ascender + descender, 0); int() truncates, upm > 0 *)
+(* max(int(upm * 1.2) - ascender + descender, 0); int() truncates towards zero *)
 Definition get_typoGap (i : info) : Qc :=
   dflt (i_typoGap i)
-       (qmax (zq (Qfloor (this (get_upm i * qq f_linegap_num f_linegap_den))) - get_ascender i + get_descender i) qc0).
+       (qmax (zq (ztrunc (get_upm i * qq f_linegap_num f_linegap_den)) - get_ascender i + get_descender i) qc0).
 Definition get_typoAsc (i : info) : Qc := dflt (i_typoAsc i) (get_ascender i).
 Definition get_typoDesc (i : info) : Qc := dflt (i_typoDesc i) (get_descender i).
 Definition get_hheaAsc (i : info) : Qc := dflt (i_hheaAsc i) (get_ascender i + get_typoGap i).
